@@ -177,6 +177,7 @@ func NewProvider(cfg ProviderCfg) (*Provider, error) {
 	cfg.defaults()
 	app := appProvider.New(log.NewNopLogger(), dbm.NewMemDB(), nil, true, simtestutil.EmptyAppOptions{})
 	p := &Provider{PApp: app, Cfg: cfg}
+	registerApp(app)
 	p.Chain = Chain{App: app, ChainID: cfg.ChainID, TKeys: []string{"transient_params"}}
 	p.K = app.GetProviderKeeper()
 	p.GovAddr = authtypes.NewModuleAddress(govtypes.ModuleName).String()
